@@ -11,7 +11,7 @@ token `CALL:<callkey>` located in `m`, which tells the orchestration which real 
 (`harness c10: chk`).  Parse errors of content `cid` are the tokens `P.<cid>.<i>`.
 
 Lines: `def <cid> <nperr> <imports,|->`, `tab <key> <val>`, `univ <names…>`, `new m=cid …`,
-`upd m=cid …`, `ren a:b …`, `rem m …`, `aff m …`.  Answer of a state-changing line:
+`upd m=cid …`, `ren a:b …`, `rem m …`, `graph m=imps … // dirty …`, `ev chg|cre|ren|del …`.  Answer of a state-changing line:
 `<name>=<+|-><tok,…|->` for every universe name (`+` iff the module is a source). -/
 namespace Driver.C10
 open SamVerif.Incremental Driver
@@ -56,8 +56,24 @@ def dedup (l : List String) : List String := l.foldl (fun acc x => if acc.contai
 def observe (d : D) (s : St) : String :=
   " ".intercalate (d.univ.map (fun k =>
     let es := dedup (getErrors s k)
-    k ++ "=" ++ (if (lookup s.sources k).isSome then "+" else "-") ++
+    k ++ "=" ++ toString ((if (lookup s.sources k).isSome then 3 else 0) +
+        (if s.checked.contains k then 4 else 0)) ++
       (if es.isEmpty then "-" else ",".intercalate es)))
+
+/-- Checker for plain graphs: a content is its import list. -/
+def graphChecker : Checker String (List String) Unit Unit where
+  root := "@"
+  builtin := ()
+  imports := fun c => c
+  sig := fun _ _ => ()
+  parseErrs := fun _ => []
+  isSyntax := fun _ => false
+  check := fun _ _ _ => []
+
+def showOp : Op String Nat → String
+  | .update ups => " ".intercalate ("upd" :: ups.map (fun p => p.1 ++ "=" ++ toString p.2))
+  | .rename rens => " ".intercalate ("ren" :: rens.map (fun p => p.1 ++ ":" ++ p.2))
+  | .remove ms => " ".intercalate ("rem" :: ms)
 
 def stepLine (d : D) (line : String) : D × String :=
   let ck := mkChecker d
@@ -91,12 +107,28 @@ def stepLine (d : D) (line : String) : D × String :=
     | some s =>
       let s' := remove ck s ms
       ({ d with st := some s' }, observe d s')
-  | "aff" :: ms =>
-    match d.st with
-    | none => (d, "no-state")
-    | some s =>
-      let r := dedup (affectedSet ck s.sources ms)
-      (d, if r.isEmpty then "-" else ",".intercalate r)
+  | "graph" :: rest =>
+    -- `graph m=imp,imp ... // dirty ...`: the model's affected_set on a plain graph
+    let edges := rest.takeWhile (· != "//")
+    let dirty := (rest.dropWhile (· != "//")).drop 1
+    let S : Sources String (List String) := (parsePairs "=" edges).map (fun p =>
+      (p.1, if p.2 == "-" then [] else p.2.splitOn ","))
+    let r := dedup (affectedSet graphChecker S dirty)
+    (d, if r.isEmpty then "-" else ",".intercalate r)
+  | "ev" :: kind :: args =>
+    -- LSP notification -> the `ServerState` call of the handler (model `glue`), printed as an op line
+    let ev : Option (Event String Nat) := match kind with
+      | "chg" => match parsePairs "=" args with
+        | [(m, c)] => some (.didChange m c.toNat!)
+        | _ => none
+      | "cre" => some (.didCreate ((parsePairs "=" args).map (fun p =>
+          (p.1, if p.2 == "?" then none else some p.2.toNat!))))
+      | "ren" => some (.didRename (parsePairs ":" args))
+      | "del" => some (.didDelete (args.map (fun a => if a == "?" then none else some a)))
+      | _ => none
+    match ev with
+    | none => (d, "bad-event")
+    | some ev => (d, showOp (glue "@" ev))
   | _ => (d, "bad-op")
 
 def run : IO Unit := runLoop ({} : D) stepLine
